@@ -1,8 +1,8 @@
 package main
 
 import (
-	"errors"
 	"encoding/hex"
+	"errors"
 	"fmt"
 	"reflect"
 	"strconv"
